@@ -211,6 +211,9 @@ def _known_confirm(prop, prev=None):
             want = term.style(['34'])
             # every character reported only red before; blue applied on top of [0,2) must show on 'b'
             return before == [['31']] * 4 and (shown is None or want is None or shown != want)
+        if i == 'K5' and prop == 'C02':
+            a = AnsiString('\x1b[1\x1b[2mX')
+            return a.base_str == '\x1b[1\x1b[2mX' and not any(a.ansi_settings_at(k) for k in range(len(a.base_str)))
         if i == 'K4' and prop == 'C02':
             a = AnsiString('\x1b[>4;2mX')
             return a.base_str == 'X' and [str(x) for x in a.ansi_settings_at(0)] == ['2']
